@@ -449,6 +449,15 @@ func convertStream(w *World, seed uint64, n int, out io.Writer) int {
 				fmt.Fprintf(out, "CONVBAD create %d failed: %s\n", i, t.Log)
 			}
 		}
+		// an operator is in use whatever the spelling of its address: the operator of genesis validator 0, written in upper
+		// case, applies with an unused consensus key — x/staking knows the operator by its bytes
+		{
+			o := node.ExecBlock(Block{DtNs: 1_000_000_000, Txs: []Tx{{Signer: 0, Msgs: []Msg{{Kind: "CREATE", Args: []string{"0U", "9", "4", "1", "2", "3", "4", "200000000000000000", "500000000000000000", "100000000000000000", "1"}}}}}}, nil)
+			if len(o.Txs) != 1 || o.Txs[0].Code == 0 {
+				bad++
+				fmt.Fprintf(out, "CONVBAD the operator of a validator, spelled in upper case, was accepted as a new applicant\n")
+			}
+		}
 		ctx := node.Ctx()
 		exported := node.App.POAKeeper.ExportGenesis(ctx)
 		bz, err := cdc.MarshalJSON(exported)
